@@ -151,7 +151,7 @@ fn stage(i: &Input, c: &mut Case) -> Result<(), String> {
 pub const STAGES: &[Stage] = &[Stage { name: "rollup", f: stage }];
 
 pub fn run(rc: &mut RunCtx) {
-    rc.run_pt(STAGES[0], rc.pick(24_000, 500_000), (96, 500));
+    rc.run_pt(STAGES[0], rc.pick(96_000, 500_000), (96, 500));
     for l in ["full_contains_master", "error_inside_buffered_master", "unknown_size_buffered_master", "all_subsets"] {
         rc.require_label("rollup", l, 10_000);
     }
